@@ -67,7 +67,8 @@ def gen_case(rng, n_ev_files=None):
         rng.shuffle(rows)
         # Percolator >= 3.06 writes a "filename" column (the name of the pin file) next to the PSM id: for Andromeda input it is not
         # the raw file - that one is the prefix of the PSM id
-        pouts.append({"rows": rows, "filename_col": rng.choice([None, None, "andromeda.tab", ""])})
+        # (a result file named *.csv is comma-separated: the delimiter follows the file name)
+        pouts.append({"rows": rows, "filename_col": rng.choice([None, None, "andromeda.tab", ""]), "csv": rng.random() < 0.25})
     return {"ev_files": ev_files, "pouts": pouts}
 
 
@@ -92,9 +93,9 @@ def write_inputs(case, d):
                 w.writerow([r[k] for k in perm])
         evs.append(p)
     for i, f in enumerate(case["pouts"]):
-        p = os.path.join(d, f"pout_{chr(ord('Z') - i)}.tab")
+        p = os.path.join(d, f"pout_{chr(ord('Z') - i)}" + (".csv" if f.get("csv") else ".tab"))
         with open(p, "w", newline="") as fh:
-            w = csv.writer(fh, delimiter="\t")
+            w = csv.writer(fh, delimiter="," if f.get("csv") else "\t")
             fc = f.get("filename_col")
             w.writerow(["PSMId"] + (["filename"] if fc is not None else []) + ["score", "q-value", "posterior_error_prob", "peptide", "proteinIds"])
             for r in f["rows"]:
